@@ -679,3 +679,112 @@ func TestVerifReplay_HTTPMintRawStorageError(t *testing.T) {
 		t.Fatalf("CONFIRMED: storage failure leaked to the client: %q", rw.Body.String())
 	}
 }
+
+// C01 under interleaving (rely/guarantee tier): another request acts between two
+// store calls of a melt. Here: a complete swap of the same proofs runs after
+// the melt has verified its inputs and before it locks them.
+func TestVerifReplay_SwapDuringMelt(t *testing.T) {
+	ln := &vLN{FakeBackend: &lightning.FakeBackend{}, feeReserve: func(a uint64) uint64 { return uint64(math.Ceil(float64(a) * 0.01)) }}
+	m := vNewMint(t, 0, ln)
+	ps := vMintProofs(t, m, []uint64{1024, 64})
+	req, _, _, err := lightning.CreateFakeInvoice(1000, false)
+	if err != nil {
+		t.Fatal(err)
+	}
+	mq, err := m.RequestMeltQuote(nut05.PostMeltQuoteBolt11Request{Request: req, Unit: "sat"})
+	if err != nil {
+		t.Fatal(err)
+	}
+	real := m.db
+	db := &vDB{MintDB: real, fail: map[int]bool{}}
+	var swapErr error
+	swapped := false
+	db.onCall = func(n int, name string) {
+		if name == "AddPendingProofs" && !swapped {
+			swapped = true
+			// the other request: swap the very same proofs (runs to completion on the real store)
+			m.db = real
+			o := vOutputs(t, m, []uint64{1024, 64})
+			_, swapErr = m.Swap(ps, o.bms)
+			m.db = db
+		}
+	}
+	m.db = db
+	_, meltErr := m.MeltTokens(context.Background(), nut05.PostMeltBolt11Request{Quote: mq.Id, Inputs: ps})
+	m.db = real
+	if !swapped {
+		t.Skip("melt did not reach AddPendingProofs")
+	}
+	paid := len(ln.maxFees) > 0
+	if swapErr == nil && paid {
+		t.Fatalf("CONFIRMED: the swap of proofs %v succeeded (new signatures issued) while a melt of the same proofs was in progress, and the melt still sent the Lightning payment (melt answer: %v): the proofs were spent twice", []uint64{1024, 64}, meltErr)
+	}
+}
+
+// C03 under interleaving: a second mint request for the same paid quote (with
+// other outputs) runs to completion after request A has read the quote state
+// and before A writes PENDING.
+func TestVerifReplay_ConcurrentMint(t *testing.T) {
+	m := vNewMint(t, 0, nil)
+	q, err := m.RequestMintQuote(nut04.PostMintQuoteBolt11Request{Amount: 6, Unit: "sat"})
+	if err != nil {
+		t.Fatal(err)
+	}
+	real := m.db
+	db := &vDB{MintDB: real, fail: map[int]bool{}}
+	var errB error
+	ranB := false
+	db.onCall = func(n int, name string) {
+		if name == "UpdateMintQuoteState" && !ranB {
+			ranB = true
+			m.db = real
+			oB := vOutputs(t, m, []uint64{2, 4})
+			_, errB = m.MintTokens(nut04.PostMintBolt11Request{Quote: q.Id, Outputs: oB.bms})
+			m.db = db
+		}
+	}
+	m.db = db
+	oA := vOutputs(t, m, []uint64{4, 2})
+	_, errA := m.MintTokens(nut04.PostMintBolt11Request{Quote: q.Id, Outputs: oA.bms})
+	m.db = real
+	if !ranB {
+		t.Skip("request A did not reach a state write")
+	}
+	if errA == nil && errB == nil {
+		t.Fatalf("CONFIRMED: two mint requests for the same quote of 6 sat both succeeded: 12 sat issued for one payment")
+	}
+}
+
+// C03 under interleaving: a state poll that has read UNPAID and learned from the
+// backend that the invoice is settled writes PAID after a mint request has
+// issued the quote in between; the quote can then be minted again.
+func TestVerifReplay_PollOverwritesIssued(t *testing.T) {
+	m := vNewMint(t, 0, nil)
+	q, err := m.RequestMintQuote(nut04.PostMintQuoteBolt11Request{Amount: 6, Unit: "sat"})
+	if err != nil {
+		t.Fatal(err)
+	}
+	real := m.db
+	db := &vDB{MintDB: real, fail: map[int]bool{}}
+	var err1 error
+	ran := false
+	db.onCall = func(n int, name string) {
+		if name == "UpdateMintQuoteState" && !ran {
+			ran = true
+			m.db = real
+			o := vOutputs(t, m, []uint64{2, 4})
+			_, err1 = m.MintTokens(nut04.PostMintBolt11Request{Quote: q.Id, Outputs: o.bms})
+			m.db = db
+		}
+	}
+	m.db = db
+	_, pollErr := m.GetMintQuoteState(q.Id) // the poll
+	m.db = real
+	if !ran || err1 != nil || pollErr != nil {
+		t.Skipf("interleaving not reached: ran=%v mint=%v poll=%v", ran, err1, pollErr)
+	}
+	o2 := vOutputs(t, m, []uint64{4, 2})
+	if _, err2 := m.MintTokens(nut04.PostMintBolt11Request{Quote: q.Id, Outputs: o2.bms}); err2 == nil {
+		t.Fatalf("CONFIRMED: the poll wrote PAID over ISSUED; the quote of 6 sat was minted a second time")
+	}
+}
